@@ -65,6 +65,11 @@ func executeCompaction(db *DB) (compactionMetadata *proto.CompactionMetadata, er
 	// make sure we're always compacting with the right order in mind
 	sort.Strings(paths)
 
+	// tables can be empty (e.g. the result of compacting nothing but tombstones), a bloom filter can't be sized for zero elements
+	if numRecords == 0 {
+		numRecords = 1
+	}
+
 	start := time.Now()
 	writeFolder, err := os.MkdirTemp(db.basePath, SSTableCompactionPathPrefix)
 	if err != nil {
